@@ -742,7 +742,7 @@ pub fn run(ctx: &Ctx, rep: &mut Report) {
         depth += 1;
     }
     if ctx.replay.is_none() {
-        let inputs: Vec<crate::conform::Input> = all_seeds(thorough).into_iter().filter(|s| !s.is_impl && s.entry == Entry::Attr && !s.traits.is_empty() && !s.attr.contains("dump")).map(|s| crate::conform::Input { entry: Entry::Attr, attr: s.attr, item: s.item }).collect();
+        let inputs: Vec<crate::conform::Input> = all_seeds(thorough).into_iter().filter(|s| !s.is_impl && s.entry == Entry::Attr && !s.traits.is_empty() && !s.attr.contains("dump") && !s.item.contains("__FRAG")).map(|s| crate::conform::Input { entry: Entry::Attr, attr: s.attr, item: s.item }).collect();
         crate::conform::validate_or_die(rep, "c16p", &inputs);
     }
     rep.set("per_depth", json!(per_depth));
